@@ -69,10 +69,14 @@ def observe(ctx, c, setname, path, a, cdb, expect_op):
                  {"cmd": c.name, "table": setname, "path": path, "args": a, "cdb": bytes(cdb) if not isinstance(cdb, (type(None),)) else None})
 
 
+CAPTURED = []  # keyword values of the most recent SCSICommand.build_cdb call (hook installed by run())
+
+
 def run_one(ctx, c, setname, kind, a, do_facade, transports):
     from vmon import harness
     from vmon.spec import dataout as DO
 
+    del CAPTURED[:]
     rep = (c.name, setname, harness.args_repr(a) if not c.custom else repr(a))
     nontriv = harness.nontrivial_args(a) or bool(c.custom)
     full = dict(harness.defaults(c))
@@ -106,6 +110,16 @@ def run_one(ctx, c, setname, kind, a, do_facade, transports):
         full["_outlen"] = len(cmd.dataout)
     observe(ctx, c, setname, "ctor", full, cmd.cdb, c.op)
     ctx.count("cdbs_checked")
+    # the CDB rebuilt on the same object from the same field values (a polling loop re-issuing the command)
+    if CAPTURED and kind != "huge*":
+        try:
+            cmd.cdb = cmd.build_cdb(**CAPTURED[-1])
+            observe(ctx, c, setname, "rebuilt", full, cmd.cdb, c.op)
+            cmd.cdb = cmd.build_cdb(**CAPTURED[-1])
+            observe(ctx, c, setname, "rebuilt", full, cmd.cdb, c.op)
+            ctx.count("rebuilt_cdbs_checked")
+        except Exception as e:  # noqa: BLE001
+            ctx.fail("C01:%s.rebuild_raises.%s" % (c.name, type(e).__name__), "cmd.build_cdb(same fields) raised %s" % e, {"cmd": c.name, "args": a}, exc=e)
     # -- facade over a recording device
     if do_facade and c.facade:
         import pyscsi.pyscsi.scsi_enum_command as E
@@ -148,6 +162,7 @@ def run(shard, ctx):
     from vmon.sim import install
 
     install.install_fakes()
+    from vmon import harness
     from vmon.spec import cdb as S
 
     c = S.COMMANDS[shard["cmd"]]
@@ -156,6 +171,16 @@ def run(shard, ctx):
         return
     rng = ctx.rng()
     transports = install.transport_factories()
+    from pyscsi.pyscsi.scsi_command import SCSICommand
+
+    orig_build = SCSICommand.build_cdb
+
+    def capturing_build(self, **kw):
+        if not CAPTURED:
+            CAPTURED.append(dict(kw))
+        return orig_build(self, **kw)
+
+    SCSICommand.build_cdb = capturing_build
     n = 0
     others = [x for x in S.COMMANDS.values() if x.name != c.name]
     for setname in c.sets:
@@ -171,6 +196,25 @@ def run(shard, ctx):
                     ctx.count("other_commands_built_in_between")
                 except Exception:  # noqa: BLE001
                     pass
+            if n % 400 == 1:
+                # calls *outside* the quantifier (values wider than their field) happen in between, in every class that has
+                # a field narrower than its bytes: later in-range commands must not be affected by them
+                for o in S.COMMANDS.values():
+                    if o.custom:
+                        continue
+                    for k_bad, v in o.args.items():
+                        if v[0] != "u" or not v[1] % 8:
+                            continue
+                        nb = (v[1] + 7) // 8
+                        for val in ((1 << (8 * nb)) - 1, (1 << (8 * nb - 1)) - 1, 1 << (8 * nb - 1), 0xFF, 0x7F, 0x80, 0x3F, 0x1F):
+                            a_bad = harness.base_args(o, "zero", rng)
+                            a_bad[k_bad] = val
+                            a_bad = harness.fill_derived(o, a_bad, rng)
+                            try:
+                                harness.construct(o, o.sets[0], a_bad)
+                                ctx.count("out_of_range_calls_in_between")
+                            except Exception:  # noqa: BLE001
+                                ctx.count("out_of_range_calls_refused")
             do_tr = transports if (not shard["small"] or n % 7 == 0) else []
             run_one(ctx, c, setname, kind, a, True, do_tr)
 
